@@ -11,6 +11,7 @@
   execution order (the code's own topological sort) respects the dependencies.
 -/
 import ILV.Lemmas.Engine
+import ILV.Lemmas.Spec
 import ILV.Drv.C01
 namespace ILV.Props.C01
 open ILV ILV.DL ILV.Engine
@@ -156,6 +157,14 @@ theorem C01_partial_simple (p : Program) (edb : DB) (hash : Tuple → Nat) (ord 
     (hpm : pmEval fuel' p edb = some M) :
     MemEq A (M.get (queryRel p)) :=
   C01_partial p edb hash ord fuel fuel' A acc M hfrag (clauseFaithful_of_simple p hsimple) hrun hpm
+
+/-- The Spec's executable clause meaning is sound for the declarative one: every tuple derived by
+    `evalRuleLk` (aggregate-free rule without comparison literals) is the head instance of a
+    valuation that maps every positive atom onto a stored tuple and no negated atom onto any. -/
+theorem spec_clause_sound (lk : String → List Tuple) (r : Rule) (hagg : r.hasAgg = false) (hc : r.cmps = [])
+    (ts : List Tuple) (h : evalRuleLk lk r = some ts) (t : Tuple) (ht : t ∈ ts) :
+    ∃ env, BodySat lk r env ∧ HeadInst r env t :=
+  evalRuleLk_sound lk r hagg hc ts h t ht
 
 /-- A three-head chain with a join, a negation over a derived head and a constant, written in an
     order in which the code's topological sort has to move heads (`b` is defined before `a`). -/
